@@ -239,7 +239,7 @@ CHECKS = {
         stages=[rnd("msgs", "c02", 40000, 1500000, essential=["refused_then_retried", "two_in_flight", "deferred_notification", "size_at_limit", "size_beyond_limit", "fc_toggled_midburst", "shm", "socket",
                                                                 "event_readable_checked", "response_from_callback", "response_from_outside", "three_clients", "ring_full_refusal", "sendv",
                                                                 "client_send_blocked_then_rescued", "receive_buffer_too_small", "events_drained_under_flow_control",
-                                                                "sendv_recv", "sendv_recv_with_response_waiting"])],
+                                                                "sendv_recv", "sendv_recv_with_response_waiting", "server_sendv", "iovec_with_empty_segment"])],
         assumptions=["at most 48 requests of one client are outstanding; the state in which the client blocks on a full client-to-server notification socket is reached by shrinking that socket's buffers, and a helper thread then runs server steps (only while the main thread is stuck inside the send), lifting flow control after 20 ms",
                      "readability of the event descriptor is demanded only when the server's dispatcher has nothing left to do (deferred notifications are re-sent from the server's loop)"],
     ),
@@ -295,7 +295,7 @@ CHECKS = {
         stages=[rnd("death", "c03", 6000, 150000, essential=["A_died_during_handshake", "A_died_connected_idle", "A_died_with_requests_queued", "A_died_mid_request", "A_died_in_disconnect", "A_completed", "A_partial_send", "A_killed_inside_server_callback", "A_closed_asked_for_rerun",
                                                                "B_died_before_ready", "B_died_during_handshake", "B_died_while_client_waited_forever", "B_died_while_client_waited_finite", "B_killed_between_calls",
                                                                "B_survived", "B_later_call_checked", "B_shm_cleanup_checked", "B_listener_set_up_by_living_parent", "shm", "socket",
-                                                               "A_died_with_requests_queued_under_flow_control"])],
+                                                               "A_died_with_requests_queued_under_flow_control", "A_connection_on_descriptor_0"])],
         assumptions=["the dead server has been reaped before the client's disconnect (the client's kill(pid, 0) probe sees a zombie as alive)",
                      "a dying process stops between libc calls, or after a prefix of a send; it does not corrupt shared memory on its way out"],
     ),
@@ -312,7 +312,7 @@ CHECKS = {
         level_note="needs root (otherwise the run is reported inconclusive); modes without owner read/write are not generated (files are created 0600 first: the statement's default); transient ownership by the creating "
                    "server before chown is not flagged, only the mode is checked at every moment; ownership is checked once the client reports it is connected",
         stages=[rnd("admit", "c05", 12000, 500000, essential=["refused", "accepted_default_auth", "accepted_custom_owner", "accepted_custom_mode", "non_root_client", "effective_differs_from_real", "concurrent_mix",
-                                                                 "refused_and_accepted_together", "moments_observed_100", "shm", "socket", "client_talked"])],
+                                                                 "refused_and_accepted_together", "moments_observed_100", "shm", "socket", "client_talked", "auth_set_leaves_an_id_alone"])],
         assumptions=["the sandbox lets root switch to arbitrary numeric ids (no user namespaces restrictions)", "clients and server share a pid namespace (per-connection directory names carry the client pid)"],
     ),
 }
